@@ -8,6 +8,7 @@ the C18 campaign: the AST of every emitted file of the scenario corpus and of ge
 -/
 import Gv.Model.Emit
 import Gv.Model.Facts
+import Gv.Proofs.EmitLemmas
 
 namespace Gv.Props.C18
 open Gv Gv.Emit
@@ -57,5 +58,75 @@ theorem C18_structural_needs_nothing_list (te : Ty) (a b : Bool) (i : Conv) (h :
 theorem C18_structural_needs_nothing_map (tk tv : Ty) (k v : Conv) (hk : convNeeds k = (false, [])) (hv : convNeeds v = (false, [])) :
     convNeeds (.mapc tk tv k v) = (false, []) := by
   simp [convNeeds, hk, hv]
+
+/-! ### whole plans (`Gv/Proofs/EmitLemmas.lean`: `convSites` lists every call node and every enum action of a plan) -/
+
+open Gv.EmitLemmas
+
+/-- **C18_fmt_iff**: a plan needs `fmt` iff some enum action in it is `@panic`/`@error`, or some error-returning call in it is
+wrapped with wrapErrors at a path ending in a field or an index -/
+theorem C18_fmt_iff (c : Conv) : (convNeeds c).1 = true ↔ ∃ s, s ∈ convSites c ∧ SiteNeedsFmt s := by
+  rw [convNeeds_eq]
+  simp only [needsOf, List.any_eq_true, siteFmt_iff]
+
+/-- **C18_pkgs_exact**: the wrap packages a plan refers to are exactly those of its error-returning calls and `@error`
+actions under wrapErrorsUsing -/
+theorem C18_pkgs_exact (c : Conv) (pkg : Str.S) : pkg ∈ (convNeeds c).2 ↔ ∃ s, s ∈ convSites c ∧ SiteUsesPkg pkg s := by
+  rw [convNeeds_eq]
+  simp only [needsOf, List.mem_filterMap, sitePkg_iff]
+
+/-- the fold over the method table: `fmt` if any body needs it, the packages of all bodies in order -/
+theorem C18_methods_fold (ms : List GenMethod) :
+    (methodsNeeds ms).1 = (ms.filterMap (·.body)).any (fun b => (bodyNeeds b).1) ∧
+    (methodsNeeds ms).2 = (ms.filterMap (·.body)).flatMap (fun b => (bodyNeeds b).2) :=
+  methodsNeeds_per_method ms
+
+/-- both, for a whole file (`methodsSites`: the sites of all method bodies; a delegating body has none) -/
+theorem C18_methods_fmt_iff (ms : List GenMethod) :
+    (methodsNeeds ms).1 = true ↔ ∃ s, s ∈ methodsSites ms ∧ SiteNeedsFmt s := by
+  rw [methodsNeeds_eq]
+  simp only [needsOf, List.any_eq_true, siteFmt_iff]
+
+theorem C18_methods_pkgs_exact (ms : List GenMethod) (pkg : Str.S) :
+    pkg ∈ (methodsNeeds ms).2 ↔ ∃ s, s ∈ methodsSites ms ∧ SiteUsesPkg pkg s := by
+  rw [methodsNeeds_eq]
+  simp only [needsOf, List.mem_filterMap, sitePkg_iff]
+
+/-- a site of the file is a site of the body of one of its methods -/
+theorem C18_methods_sites (ms : List GenMethod) (s : Site) :
+    s ∈ methodsSites ms ↔ ∃ m b, m ∈ ms ∧ m.body = some b ∧ s ∈ bodySites b := by
+  simp only [methodsSites, List.mem_flatMap, List.mem_filterMap]
+  constructor
+  · rintro ⟨b, ⟨m, hm, hb⟩, hs⟩; exact ⟨m, b, hm, hb, hs⟩
+  · rintro ⟨m, b, hm, hb, hs⟩; exact ⟨b, ⟨m, hm, hb⟩, hs⟩
+
+/-- **C18_pure_structural_imports_nothing**: a plan without call nodes and without enum nodes needs neither `fmt` nor any
+wrap package; so does a file of such plans -/
+theorem C18_pure_structural_imports_nothing (c : Conv) (h : convSites c = []) : convNeeds c = (false, []) := by
+  rw [convNeeds_eq, h]; rfl
+
+theorem C18_pure_structural_file_imports_nothing (ms : List GenMethod) (h : methodsSites ms = []) :
+    methodsNeeds ms = (false, []) := by
+  rw [methodsNeeds_eq, h]; rfl
+
+/-! non-vacuity -/
+section Examples
+private def wE : Wrap := { mode := .wrapErrors, path := [.field "A".toList, .index] }
+private def wU : Wrap := { mode := .using "my/wrap".toList, path := [.field "A".toList] }
+private def planCalls : Conv :=
+  .structc (.cons (.mapped "A".toList ["A".toList] [] false false (.list (.basic .int) true true (.call (.custom 0) [.source] true wE)) .none)
+           (.cons (.mapped "B".toList ["B".toList] [] false false (.enumc [("X".toList, .int 0, .ignore)] (.error wU)) .none) .nil)) false
+private def planPure : Conv :=
+  .structc (.cons (.mapped "A".toList ["A".toList] [] false false (.ptrPtr (.basic .int) (.cast .ident)) .none)
+           (.cons (.skip "B".toList) .nil)) false
+
+example : convSites planCalls = [.call true wE, .action (.error wU), .action .ignore] := rfl
+example : SiteNeedsFmt (.call true wE) := ⟨rfl, rfl, .inr rfl⟩
+example : (convNeeds planCalls).1 = true := (C18_fmt_iff planCalls).2 ⟨.call true wE, by simp [planCalls, convSites, fieldsSites, fieldSites], rfl, rfl, .inr rfl⟩
+example : "my/wrap".toList ∈ (convNeeds planCalls).2 :=
+  (C18_pkgs_exact planCalls _).2 ⟨.action (.error wU), by simp [planCalls, convSites, fieldsSites, fieldSites], _, rfl⟩
+example : convSites planPure = [] := rfl
+example : convNeeds planPure = (false, []) := C18_pure_structural_imports_nothing planPure rfl
+end Examples
 
 end Gv.Props.C18
